@@ -2,6 +2,7 @@
   C17 — the command-line tool reports the battles it was asked to run (property theorems).
 -/
 import Gmars.Model.Cli
+import Gmars.Proofs.Survivor
 
 namespace Gmars.Props.C17
 open Gmars Gmars.Cli
@@ -34,6 +35,28 @@ theorem tally_partition (rs : List (Bool × Bool)) (h : ∀ r ∈ rs, r ≠ (fal
   · simpa using h1
   · have h3 : ((tallyAll {} rs).w1tie : Int) - (tallyAll {} rs).w2tie = 0 := by simpa using h2
     omega
+
+/-- `tally_partition` for the tool itself: for every pair of warriors (fields below the core
+    size, sane entry points), every configuration the flags can describe with core ≤ 2^32, and
+    ANY list of placements of warrior #2 — so for every outcome of the random placement over any
+    number of rounds — each round is counted exactly once: wins₁ + wins₂ + ties = rounds and
+    ties₁ = ties₂ (a round never ends with both warriors dead: the battle stops at one survivor) -/
+theorem cli_tally_partition {cfg : Config} {w1 w2 : WarriorData} {places : List UInt64}
+    {t : Tally} (hpre : RoundPre cfg w1 w2) (hplaces : ∀ p ∈ places, p.toNat < 2 ^ 63)
+    (h : battles cfg [w1, w2] places = some t) :
+    t.w1win + t.w2win + t.w1tie = places.length ∧ t.w1tie = t.w2tie :=
+  Gmars.cli_tally_partition hpre hplaces h
+
+/-- `fixed_output` — one round of the tool at a fixed placement is the reference battle: create,
+    add warrior 1, spawn it at 0, add warrior 2, spawn it at the placement, run to completion
+    (`refBattle`, built from `Spec.Api` and `Spec.step` only); the survivors it tallies are the
+    reference's survivors -/
+theorem fixed_output {cfg : Config} {w1 w2 : WarriorData} {place : UInt64}
+    (hv : cfg.validate = true) (hpre : RoundPre cfg w1 w2) (hplace : place.toNat < 2 ^ 63) :
+    round cfg [w1, w2] place =
+      (refBattle cfg w1 w2 place.toNat).map (fun a => a.ws.map (fun w => w.st == .alive)) ∧
+    (refBattle cfg w1 w2 place.toNat).isSome = true :=
+  Gmars.fixed_output hv hpre hplace
 
 /-- `flags_to_config` — without a preset the flags -8 -s -p -c -l map to
     NewQuickConfig(mode, size, processes, cycles, length): limits = core size, distance = length -/
